@@ -211,6 +211,7 @@ func init() {
 	streams["hsfault"] = func(seed int64, idx int) *scenario { return runHsFaultScenario(seed*1000003+int64(idx), idx) }
 	streams["glue"] = func(seed int64, idx int) *scenario { return runGlueScenario(seed*1000003 + int64(idx)) }
 	streams["nego"] = func(seed int64, idx int) *scenario { return runNegoScenario(seed*1000003+int64(idx), idx) }
+	streams["matrix"] = func(seed int64, idx int) *scenario { return runMatrixScenario(seed, idx+int(seed%7)*61) }
 	streams["pair"] = func(seed int64, idx int) *scenario { return runPairScenario(seed*1000003 + int64(idx)) }
 	streams["join"] = func(seed int64, idx int) *scenario { return runJoinScenario(seed*1000003 + int64(idx)) }
 	streams["srv"] = func(seed int64, idx int) *scenario { return runServerScenario(seed*1000003+int64(idx), false) }
